@@ -48,7 +48,7 @@ Qed.
 Print Assumptions C30_lih_monotone_forward.
 
 (* Rolling back the block just processed restores the irreversibility state
-   exactly (LIH included: repair ac1a41f0 of C21's finding; before it the
+   exactly (LIH included: repair ff7a11db of C21's finding; before it the
    advancing branch left LIH untouched and the first block attached after a
    reorganisation LOWERED it, 4 -> 3 in the corpus history dpos-fork2).  So
    after the detach phase of a reorganisation the state is the one the node had
